@@ -371,6 +371,26 @@ def content_equality(rep: Report, prog: Program) -> None:
             rep.ob(rule, ini.fq(), f"{c.name}.__init__ runs {base_init.cls.name}.__init__ (binds {binds})", ini.loc(), ok,
                    'on every path' if ok else f"a path constructs the object without {binds}: arity, shape and equality of the object are undefined")
     rep.floor('C20-D3 base constructors', n_sup, 2)
+    # the sequences __eq__ compares have one container type, made by the constructor itself: `tuple(doms)`, `list(values)`.
+    # A caller's own list stored as it is compares unequal to the same domains given as a tuple, and changes when the caller's list does.
+    n_seq = 0
+    for mod, cname, attr in (('fggs.factors', 'Factor', 'domains'), ('fggs.domains', 'FiniteDomain', 'values')):
+        ci = prog.cls(mod, cname)
+        for m in list(ci.methods.values()) + list(ci.setters.values()):
+            selfn = m.self_name()
+            if selfn is None:
+                continue
+            for a_ in own_nodes(m.node):
+                if isinstance(a_, (ast.Assign, ast.AnnAssign)) and a_.value is not None:
+                    for t in (a_.targets if isinstance(a_, ast.Assign) else [a_.target]):
+                        if isinstance(t, ast.Attribute) and isinstance(t.value, ast.Name) and t.value.id == selfn and t.attr == attr:
+                            n_seq += 1
+                            v = a_.value
+                            fresh = isinstance(v, (ast.Tuple, ast.List, ast.ListComp)) or isinstance(v, ast.Call) and isinstance(v.func, ast.Name) and v.func.id in ('tuple', 'list', 'sorted')
+                            rep.ob(rule, m.fq(), f"{cname}.{attr} = {norm(v)[:50]}: a container of the class's own making", m.loc(a_), fresh,
+                                   'built by the constructor: one container type, not shared with the caller' if fresh else
+                                   f"`{norm(v)[:60]}` can be the caller's own object: {cname}s built from a list and from a tuple of the same {attr} compare unequal (list != tuple), and a later change of the caller's list changes the {cname.lower()}")
+    rep.floor('C20-D3 stored sequences', n_seq, 2)
     fd = prog.cls('fggs.domains', 'FiniteDomain')
     init = fd.methods['__init__']
     p0 = init.positional_params()[1]
